@@ -1016,6 +1016,7 @@ class Compiler:
     def _compile_function_declaration(self, node: FunctionDeclaration) -> None:
         """Create the function of a declaration and bind its name."""
         func = self._compile_function(node.id.name, node.params, node.body)
+        func.source_text = getattr(node, "source_text", None)
         func_idx = len(self.functions)
         self.functions.append(func)
 
@@ -1789,6 +1790,7 @@ class Compiler:
             func = self._compile_function(
                 name, node.params, node.body, is_expression=True
             )
+            func.source_text = getattr(node, "source_text", None)
             func_idx = len(self.functions)
             self.functions.append(func)
 
@@ -1798,6 +1800,7 @@ class Compiler:
 
         elif isinstance(node, ArrowFunctionExpression):
             func = self._compile_arrow_function(node)
+            func.source_text = getattr(node, "source_text", None)
             func_idx = len(self.functions)
             self.functions.append(func)
 
